@@ -40,7 +40,7 @@ for p in props:
         na.append({'property_id': pid, 'reason': 'no check is registered for this property in this commit: its model/theorems are not built yet (work in progress, not a claim that proof cannot apply)'})
 m = {
     'version': 1,
-    'setup_cmd': 'cd lean && lake build && cd .. && /venv/bin/python tools/leancheck_all.py',
+    'setup_cmd': 'cd lean && lake build',
     'hooks': {'guard': 'BCTPY_VERIF', 'enable': 'no hook exists in /repo: no source line reads the variable, which is reserved (the harness sets BCTPY_VERIF=1 before importing bct from the current working tree of /repo); all /repo commits of this work are unguarded fix: commits',
               'baseline_off_cmd': BASE_OFF, 'source_commits': json.load(open(os.path.join(V, 'tools', 'hook_commits.json'))), 'add_only': True},
     'engines': [{'name': 'lean4+correspondence', 'path': 'lean/ , harness/', 'serves_properties': sorted(CLAIMED),
